@@ -1,20 +1,32 @@
-(* C19 - the write pipeline for CHECK / NOT NULL / DEFAULT / STORED generated columns, INT columns.
+(* C19 - the write pipeline for CHECK / NOT NULL / DEFAULT / generated columns over the integer column types.
 
    Mirrors (go-mysql-server), in the REAL order of the code:
-     sql/rowexec/insert.go  insertIter.Next: row source (defaults and generated values already projected from the
-                            values AS WRITTEN) -> validateNullability (IGNORE: NULL := 0) -> evaluateChecks ->
-                            per-column ConvertRound -> editor insert;  ignoreOrClose / warnOnIgnorableError
+     sql/rowexec/insert.go  insertIter.Next: row source (rowexec.ProjectRow: first pass = values AS WRITTEN and literal
+                            defaults, second pass = expression defaults and generated columns, left to right, over the
+                            row under construction) -> validateNullability (IGNORE: NULL := 0) -> evaluateChecks ->
+                            per-column ConvertRound (strict: out of range / not a number = error; IGNORE: clamp, a
+                            negative value into an UNSIGNED column wraps, a string with a numeric prefix keeps the
+                            prefix through a Go cast) -> editor insert / replace;  ignoreOrClose / warnOnIgnorableError
      sql/rowexec/update.go  applyUpdateExpressionsWithIgnore (SET expressions left to right on the working row,
-                            SetField converts strictly; derived = generated columns recomputed when the row changed),
-                            updateIter.Next (old <> new: checks -> validateNullability (IGNORE: NULL := 0 AFTER the
-                            checks and after the generated columns) -> editor update)
+                            SetField.Eval converts with Convert and DROPS the range flag: out-of-range values are
+                            clamped silently; a string that is not an integer is an error, IGNORE: 0; derived =
+                            generated columns recomputed when the row changed), updateIter.Next (old <> new: checks
+                            -> validateNullability (IGNORE: NULL := 0 AFTER the checks and the generated columns))
+     insertIter.handleOnDuplicateKeyUpdate  SET expressions on old ++ new (VALUES(c) = column n + c), derived columns,
+                            checks, update
      sql/types/number.go    NumberTypeImpl_.Compare: an operand whose conversion to int64 fails compares as 0
-                            (a string with a fractional part); arithmetic truncates such a string toward zero;
-                            ConvertRound rounds it half away from zero
-   Values are small (no range failures are generated; range checks are not modelled). *)
+                            (a string with a fractional part or trailing garbage); arithmetic truncates such a string
+                            toward zero; ConvertRound rounds it half away from zero
+     sql/planbuilder/dml.go loadChecksFromTable: the table of a schema with a VIRTUAL column is wrapped in
+                            plan.VirtualColumnTable, which is no sql.CheckTable: NO check is loaded (eff_checks)
+     sql/planbuilder/dml_validate.go validGeneratedColumnValue: only the FIRST tuple is inspected for an explicit
+                            value in a generated column *)
 From Coq Require Import List ZArith Bool.
 Import ListNotations.
 Open Scope Z_scope.
+
+(* an integer column type: bounds and signedness (TINYINT .. INT, signed or UNSIGNED) *)
+Record ity := mkTy { t_lo : Z; t_hi : Z; t_uns : bool }.
 
 (* a value as written in the statement *)
 Inductive raw :=
@@ -23,25 +35,27 @@ Inductive raw :=
 | RDec (t : Z)       (* decimal literal t/10: the planner converts it to the column type in the row source *)
 | RStrI (z : Z)      (* string holding an integer, e.g. '7' *)
 | RStrF (t : Z)      (* string holding t/10 with a non-zero fractional digit, e.g. '9.6' *)
+| RBad (p : Z)       (* string with a numeric prefix p >= 0 followed by letters: '12abc' ('abc' is p = 0) *)
 | RDef.              (* DEFAULT, or the column is omitted *)
 
 (* a value travelling through the pipeline before the type conversion *)
-Inductive cell := CNull | CInt (z : Z) | CStrI (z : Z) | CStrF (t : Z).
+Inductive cell := CNull | CInt (z : Z) | CStrI (z : Z) | CStrF (t : Z) | CBad (p : Z).
 
 Inductive term := TCol (i : nat) | TLit (z : Z) | TAdd (a b : term) | TMul (a b : term).
 Inductive cop := Lt | Le | Gt | Ge | Eq | Ne.
 Record check := mkCheck { c_op : cop; c_l : term; c_r : term }.
-Record col := mkCol { notnull : bool; dflt : option Z; gen : option term }.
+Inductive dfl := DNone | DLit (z : Z) | DExpr (e : term).
+Record col := mkCol { cty : ity; notnull : bool; dflt : dfl; gen : option term; virt : bool }.
 
 Definition round10 (t : Z) : Z := if 0 <=? t then (t + 5) / 10 else - ((- t + 5) / 10).
 Definition trunc10 (t : Z) : Z := Z.quot t 10.
 
 (* arithmetic operand *)
 Definition aval (c : cell) : option Z :=
-  match c with CNull => None | CInt z => Some z | CStrI z => Some z | CStrF t => Some (trunc10 t) end.
+  match c with CNull => None | CInt z => Some z | CStrI z => Some z | CStrF t => Some (trunc10 t) | CBad p => Some p end.
 (* comparison operand: a failed conversion compares as 0 *)
 Definition cval (c : cell) : option Z :=
-  match c with CNull => None | CInt z => Some z | CStrI z => Some z | CStrF _ => Some 0 end.
+  match c with CNull => None | CInt z => Some z | CStrI z => Some z | CStrF _ => Some 0 | CBad _ => Some 0 end.
 
 Definition lift2 (f : Z -> Z -> Z) (a b : option Z) : option Z :=
   match a, b with Some x, Some y => Some (f x y) | _, _ => None end.
@@ -74,6 +88,8 @@ Definition check_false (row : list cell) (c : check) : bool :=
 
 Definition cell_of_opt (v : option Z) : cell := match v with Some z => CInt z | None => CNull end.
 
+(* first pass of ProjectRow: the value as written; DEFAULT / omitted = the literal default (an expression default is
+   filled by the second pass) *)
 Definition cell_of_raw (c : col) (r : raw) : cell :=
   match r with
   | RNull => CNull
@@ -81,15 +97,62 @@ Definition cell_of_raw (c : col) (r : raw) : cell :=
   | RDec t => CInt (round10 t)
   | RStrI z => CStrI z
   | RStrF t => CStrF t
-  | RDef => cell_of_opt (dflt c)
+  | RBad p => CBad p
+  | RDef => match dflt c with DLit d => CInt d | _ => CNull end
   end.
 
-(* per-column ConvertRound *)
+(* the conversion of a value that is already an integer or NULL (nothing to do) *)
 Definition convert (c : cell) : option Z :=
-  match c with CNull => None | CInt z => Some z | CStrI z => Some z | CStrF t => Some (round10 t) end.
+  match c with CNull => None | CInt z => Some z | CStrI z => Some z | CStrF t => Some (round10 t) | CBad p => Some p end.
+
+(* ---- the integer types ---- *)
+Definition in_range (ty : ity) (z : Z) : bool := (t_lo ty <=? z) && (z <=? t_hi ty).
+(* what Convert/ConvertRound return next to the Overflow/Underflow flag: the bound, but a negative value into an
+   UNSIGNED type is uintN(max + num + 1), i.e. it wraps *)
+Definition clamp (ty : ity) (z : Z) : Z :=
+  if t_hi ty <? z then t_hi ty
+  else if z <? t_lo ty then (if t_uns ty then z mod (t_hi ty + 1) else t_lo ty)
+  else z.
+(* the Go cast intN(num) / uintN(num) applied to the prefix of a malformed string (no range check on that path) *)
+Definition wrap_cast (ty : ity) (z : Z) : Z :=
+  if t_uns ty then z mod (t_hi ty + 1) else (z - t_lo ty) mod (t_hi ty - t_lo ty + 1) + t_lo ty.
+
+Inductive err := ENotNull | ECheck | EInvalid | ERange | EDefNull | EGenValue.
+
+Inductive conv := COk (v : option Z) | CWarn (v : Z) | CErr (e : err).
+
+Definition conv_range (ign : bool) (ty : ity) (z : Z) : conv :=
+  if in_range ty z then COk (Some z) else if ign then CWarn (clamp ty z) else CErr ERange.
+
+(* insertIter.Next, the per-column conversion *)
+Definition convert_cell (ign : bool) (ty : ity) (c : cell) : conv :=
+  match c with
+  | CNull => COk None
+  | CInt z => conv_range ign ty z
+  | CStrI z => conv_range ign ty z
+  | CStrF t => conv_range ign ty (round10 t)
+  | CBad p => if ign then CWarn (wrap_cast ty p) else CErr EInvalid
+  end.
+
+Definition conv_val (ign : bool) (ty : ity) (c : cell) : option Z :=
+  match convert_cell ign ty c with COk v => v | CWarn v => Some v | CErr _ => None end.
+Definition conv_err (ign : bool) (ty : ity) (c : cell) : option err :=
+  match convert_cell ign ty c with CErr e => Some e | _ => None end.
+Definition conv_warn (ign : bool) (ty : ity) (c : cell) : N :=
+  match convert_cell ign ty c with CWarn _ => 1%N | _ => 0%N end.
 
 Fixpoint map2 {A B C} (f : A -> B -> C) (l : list A) (m : list B) : list C :=
   match l, m with a :: l', b :: m' => f a b :: map2 f l' m' | _, _ => [] end.
+
+Fixpoint first_some {A} (l : list (option A)) : option A :=
+  match l with [] => None | Some a :: _ => Some a | None :: l' => first_some l' end.
+
+(* the whole row: the first failing column decides the error *)
+Definition convert_row (ign : bool) (sch : list col) (row : list cell) : list (option Z) + err :=
+  match first_some (map2 (fun c x => conv_err ign (cty c) x) sch row) with
+  | Some e => inr e
+  | None => inl (map2 (fun c x => conv_val ign (cty c) x) sch row)
+  end.
 
 Fixpoint set_nth {A} (i : nat) (x : A) (l : list A) : list A :=
   match i, l with
@@ -98,22 +161,43 @@ Fixpoint set_nth {A} (i : nat) (x : A) (l : list A) : list A :=
   | _, [] => []
   end.
 
-(* the generated columns of [row] recomputed, left to right, each from the row with the earlier ones already in place
-   (a generated column may read an earlier generated column) *)
-Fixpoint fill_gen_from (sch : list col) (i : nat) (row : list cell) : list cell :=
-  match sch with
+(* second pass of ProjectRow: the pending expressions evaluated left to right, each over the row with the earlier
+   ones already in place *)
+Fixpoint fill_from (pend : list (option term)) (i : nat) (row : list cell) : list cell :=
+  match pend with
   | [] => row
-  | c :: sch' =>
-      let row' := match gen c with Some e => set_nth i (cell_of_opt (eval_term row e)) row | None => row end in
-      fill_gen_from sch' (S i) row'
+  | p :: pend' =>
+      let row' := match p with Some e => set_nth i (cell_of_opt (eval_term row e)) row | None => row end in
+      fill_from pend' (S i) row'
   end.
-Definition fill_generated (sch : list col) (row : list cell) : list cell := fill_gen_from sch 0 row.
 
-(* row source: values as written, defaults, then generated columns from that row *)
+(* the generated columns of a row recomputed (UPDATE: the derived SET expressions) *)
+Definition fill_generated (sch : list col) (row : list cell) : list cell := fill_from (map gen sch) 0 row.
+
+(* what the second pass computes for an INSERT row: a generated column written as DEFAULT / omitted, and an
+   expression default of a column written as DEFAULT / omitted.  An explicit value in a generated column (accepted
+   after the first tuple) is taken as written. *)
+Definition pend_ins (c : col) (r : raw) : option term :=
+  match r with
+  | RDef => match gen c with Some e => Some e | None => match dflt c with DExpr e => Some e | _ => None end end
+  | _ => None
+  end.
+
 Definition source_row (sch : list col) (rs : list raw) : list cell :=
-  fill_generated sch (map2 cell_of_raw sch rs).
+  fill_from (map2 pend_ins sch rs) 0 (map2 cell_of_raw sch rs).
 
-Inductive err := ENotNull | ECheck | EInvalid.
+(* ColumnDefaultValue.Eval: an expression default of a NOT NULL column that evaluates to NULL is an error *)
+Definition def_null (c : col) (r : raw) (x : cell) : bool :=
+  match r, gen c, dflt c, x with
+  | RDef, None, DExpr _, CNull => notnull c
+  | _, _, _, _ => false
+  end.
+Fixpoint map3 {A B C D} (f : A -> B -> C -> D) (l : list A) (m : list B) (k : list C) : list D :=
+  match l, m, k with a :: l', b :: m', c :: k' => f a b c :: map3 f l' m' k' | _, _, _ => [] end.
+
+(* the virtual columns as they are read back: computed from the stored values, left to right *)
+Definition refresh_virtual (sch : list col) (r : list (option Z)) : list (option Z) :=
+  map convert (fill_from (map (fun c => if virt c then gen c else None) sch) 0 (map cell_of_opt r)).
 
 Inductive outcome (A : Type) := Stored (x : A) | Skipped | Failed (e : err).
 Arguments Stored {A}. Arguments Skipped {A}. Arguments Failed {A}.
@@ -136,11 +220,35 @@ Fixpoint nullability (ign : bool) (sch : list col) (row : list cell) : option (l
 Definition insert_row (ign : bool) (sch : list col) (chks : list check) (rs : list raw)
   : outcome (list (option Z)) :=
   let row0 := source_row sch rs in
-  match nullability ign sch row0 with
+  if existsb (fun b => b) (map3 def_null sch rs row0) then Failed EDefNull
+  else match nullability ign sch row0 with
   | None => Failed ENotNull
   | Some row1 =>
       if existsb (check_false row1) chks then (if ign then Skipped else Failed ECheck)
-      else Stored (map convert row1)
+      else match convert_row ign sch row1 with
+           | inr e => Failed e
+           | inl r => Stored (refresh_virtual sch r)
+           end
+  end.
+
+(* the warnings of one INSERT IGNORE row (values without strings): one per NULL := 0, then either the skipped row's
+   check violation or one per clamped column *)
+Fixpoint null_fixes (sch : list col) (row : list cell) : N :=
+  match sch, row with
+  | c :: sch', x :: row' =>
+      ((match x with CNull => if notnull c then 1 else 0 | _ => 0 end) + null_fixes sch' row')%N
+  | _, _ => 0%N
+  end.
+Fixpoint sumN (l : list N) : N := match l with [] => 0%N | x :: l' => (x + sumN l')%N end.
+
+Definition insert_row_warn (sch : list col) (chks : list check) (rs : list raw) : N :=
+  let row0 := source_row sch rs in
+  match nullability true sch row0 with
+  | None => 0%N
+  | Some row1 =>
+      (null_fixes sch row0 +
+       if existsb (check_false row1) chks then 1
+       else sumN (map2 (fun c x => conv_warn true (cty c) x) sch row1))%N
   end.
 
 Definition table := list (list (option Z)).
@@ -159,28 +267,51 @@ Fixpoint insert_rows (ign : bool) (sch : list col) (chks : list check) (rows : l
       end
   end.
 
+(* validGeneratedColumnValue looks at the first tuple only *)
+Definition explicit_gen (c : col) (r : raw) : bool :=
+  match gen c, r with Some _, RDef => false | Some _, _ => true | None, _ => false end.
+Definition first_row_gen_value (sch : list col) (rows : list (list raw)) : bool :=
+  match rows with rs :: _ => existsb (fun b => b) (map2 explicit_gen sch rs) | [] => false end.
+
 (* ---- UPDATE ---- *)
 Inductive urhs := URaw (r : raw) | UTerm (e : term).
 
-(* SetField.Eval: the right side evaluated on the working row, converted strictly *)
-Definition set_value (ign : bool) (sch : list col) (row : list cell) (i : nat) (rhs : urhs) : option cell :=
+Definition no_col := mkCol (mkTy 0 0 false) false DNone None false.
+
+(* SetField.Eval: the right side evaluated on the working row, converted with Convert (range flag dropped) *)
+Definition set_value (ign : bool) (sch : list col) (row : list cell) (i : nat) (rhs : urhs) : cell + err :=
+  let c := nth i sch no_col in
+  let cl (v : option Z) : cell := match v with Some z => CInt (clamp (cty c) z) | None => CNull end in
   match rhs with
-  | UTerm e => Some (cell_of_opt (eval_term row e))
-  | URaw RNull => Some CNull
-  | URaw (RInt z) => Some (CInt z)
-  | URaw (RDec t) => Some (CInt (round10 t))
-  | URaw (RStrI z) => Some (CInt z)
-  | URaw (RStrF _) => if ign then Some (CInt 0) else None
-  | URaw RDef => Some (cell_of_opt (dflt (nth i sch (mkCol false None None))))
+  | UTerm e => inl (cl (eval_term row e))
+  | URaw RNull => inl CNull
+  | URaw (RInt z) => inl (cl (Some z))
+  | URaw (RDec t) => inl (cl (Some (round10 t)))
+  | URaw (RStrI z) => inl (cl (Some z))
+  | URaw (RStrF _) => if ign then inl (CInt 0) else inr EInvalid
+  | URaw (RBad _) => if ign then inl (CInt 0) else inr EInvalid
+  | URaw RDef =>
+      match gen c with
+      | Some e => inl (cl (eval_term row e))
+      | None =>
+          match dflt c with
+          | DNone => inl CNull
+          | DLit d => inl (cl (Some d))
+          | DExpr e => match eval_term row e with
+                       | None => if notnull c then inr EDefNull else inl CNull
+                       | Some z => inl (cl (Some z))
+                       end
+          end
+      end
   end.
 
-Fixpoint apply_sets (ign : bool) (sch : list col) (row : list cell) (sets : list (nat * urhs)) : option (list cell) :=
+Fixpoint apply_sets (ign : bool) (sch : list col) (row : list cell) (sets : list (nat * urhs)) : list cell + err :=
   match sets with
-  | [] => Some row
+  | [] => inl row
   | (i, rhs) :: sets' =>
       match set_value ign sch row i rhs with
-      | None => None
-      | Some v => apply_sets ign sch (set_nth i v row) sets'
+      | inr e => inr e
+      | inl v => apply_sets ign sch (set_nth i v row) sets'
       end
   end.
 
@@ -199,15 +330,26 @@ Definition update_row (ign : bool) (sch : list col) (chks : list check) (sets : 
            (old : list (option Z)) : outcome (list (option Z)) :=
   let oldc := map cell_of_opt old in
   match apply_sets ign sch oldc sets with
-  | None => Failed EInvalid
-  | Some w =>
+  | inr e => Failed e
+  | inl w =>
       let w1 := if row_eqb (map convert w) old then w else fill_generated sch w in
       if row_eqb (map convert w1) old then Stored old
       else if existsb (check_false w1) chks then (if ign then Skipped else Failed ECheck)
       else match nullability ign sch w1 with
            | None => Failed ENotNull
-           | Some w2 => Stored (map convert w2)
+           | Some w2 => Stored (refresh_virtual sch (map convert w2))
            end
+  end.
+
+Definition update_row_warn (sch : list col) (chks : list check) (sets : list (nat * urhs))
+           (old : list (option Z)) : N :=
+  match apply_sets true sch (map cell_of_opt old) sets with
+  | inr _ => 0%N
+  | inl w =>
+      let w1 := if row_eqb (map convert w) old then w else fill_generated sch w in
+      if row_eqb (map convert w1) old then 0%N
+      else if existsb (check_false w1) chks then 1%N
+      else null_fixes sch w1
   end.
 
 (* rows whose id (column 0) matches; None = every row *)
@@ -230,20 +372,26 @@ Fixpoint update_rows (ign : bool) (sch : list col) (chks : list check) (sets : l
 Inductive stmt :=
 | Insert (ign : bool) (rows : list (list raw))
 | Update (ign : bool) (sets : list (nat * urhs)) (wh : option Z)
-| Upsert (rs : list raw) (sets : list (nat * urhs)).   (* INSERT ... VALUES (one row) ON DUPLICATE KEY UPDATE sets *)
+(* INSERT [IGNORE] ... VALUES rows ON DUPLICATE KEY UPDATE sets; in a SET term, column n + c stands for VALUES(c) *)
+| Upsert (ign : bool) (rows : list (list raw)) (sets : list (nat * urhs))
+| Replace (rows : list (list raw)).
 
-(* insertIter.handleOnDuplicateKeyUpdate: SET expressions on the existing row, generated columns when it changed, the
+(* insertIter.handleOnDuplicateKeyUpdate: SET expressions on old ++ new, generated columns when the row changed, the
    checks (always), then the editor update; a NULL left in a NOT NULL column is refused by the storage layer *)
-Definition odku_row (sch : list col) (chks : list check) (sets : list (nat * urhs)) (old : list (option Z))
-  : outcome (list (option Z)) :=
-  match apply_sets false sch (map cell_of_opt old) sets with
-  | None => Failed EInvalid
-  | Some w =>
+Definition odku_row (ign : bool) (sch : list col) (chks : list check) (sets : list (nat * urhs))
+           (old new : list (option Z)) : outcome (list (option Z)) :=
+  let n := length old in
+  match apply_sets false sch (map cell_of_opt old ++ map cell_of_opt new) sets with
+  | inr e => Failed e
+  | inl acc =>
+      let w := firstn n acc in
+      (* the derived SET expressions run on the accumulator; generated columns read table columns only, so this
+         is the same as recomputing them on its first half *)
       let w1 := if row_eqb (map convert w) old then w else fill_generated sch w in
-      if existsb (check_false w1) chks then Failed ECheck
+      if existsb (check_false w1) chks then (if ign then Skipped else Failed ECheck)
       else match nullability false sch w1 with
            | None => Failed EInvalid
-           | Some w2 => Stored (map convert w2)
+           | Some w2 => Stored (refresh_virtual sch (map convert w2))
            end
   end.
 
@@ -264,28 +412,67 @@ Fixpoint replace_id (k : option Z) (r : list (option Z)) (t : table) : table :=
   | x :: t' => if opt_eqb (nth 0 x None) k then r :: t' else x :: replace_id k r t'
   end.
 
-(* a failing statement changes nothing *)
-Definition exec (sch : list col) (chks : list check) (t : table) (s : stmt) : table * result :=
-  match s with
-  | Insert ign rows =>
-      match insert_rows ign sch chks rows t with inl t' => (t', ROk) | inr e => (t, RErr e) end
-  | Update ign sets wh =>
-      match update_rows ign sch chks sets wh t with inl t' => (t', ROk) | inr e => (t, RErr e) end
-  | Upsert rs sets =>
-      match insert_row false sch chks rs with
-      | Failed e => (t, RErr e)
-      | Skipped => (t, ROk)
+Definition same_id (r x : list (option Z)) : bool := opt_eqb (nth 0 x None) (nth 0 r None).
+
+(* rows of INSERT .. ON DUPLICATE KEY UPDATE, one after the other on the evolving table *)
+Fixpoint upsert_rows (ign : bool) (sch : list col) (chks : list check) (sets : list (nat * urhs))
+         (rows : list (list raw)) (t : table) : table + err :=
+  match rows with
+  | [] => inl t
+  | rs :: rows' =>
+      match insert_row ign sch chks rs with
+      | Failed e => inr e
+      | Skipped => upsert_rows ign sch chks sets rows' t
       | Stored r =>
-          match find (fun x => opt_eqb (nth 0 x None) (nth 0 r None)) t with
-          | None => (insert_by_id r t, ROk)
+          match find (same_id r) t with
+          | None => upsert_rows ign sch chks sets rows' (insert_by_id r t)
           | Some old =>
-              match odku_row sch chks sets old with
-              | Stored r' => (replace_id (nth 0 r None) r' t, ROk)
-              | Skipped => (t, ROk)
-              | Failed e => (t, RErr e)
+              match odku_row ign sch chks sets old r with
+              | Stored r' => upsert_rows ign sch chks sets rows' (replace_id (nth 0 r None) r' t)
+              | Skipped => upsert_rows ign sch chks sets rows' t
+              | Failed e => inr e
               end
           end
       end
+  end.
+
+(* REPLACE: the same INSERT pipeline; an existing row with the same key is deleted first *)
+Fixpoint replace_rows (sch : list col) (chks : list check) (rows : list (list raw)) (t : table) : table + err :=
+  match rows with
+  | [] => inl t
+  | rs :: rows' =>
+      match insert_row false sch chks rs with
+      | Failed e => inr e
+      | Skipped => replace_rows sch chks rows' t
+      | Stored r => replace_rows sch chks rows' (insert_by_id r (filter (fun x => negb (same_id r x)) t))
+      end
+  end.
+
+(* loadChecksFromTable: nothing is loaded when the table has a VIRTUAL column *)
+Definition eff_checks (sch : list col) (chks : list check) : list check :=
+  if existsb virt sch then [] else chks.
+
+(* a failing statement changes nothing *)
+Definition exec (sch : list col) (chks0 : list check) (t : table) (s : stmt) : table * result :=
+  let chks := eff_checks sch chks0 in
+  let fin (x : table + err) := match x with inl t' => (t', ROk) | inr e => (t, RErr e) end in
+  match s with
+  | Insert ign rows =>
+      if first_row_gen_value sch rows then (t, RErr EGenValue) else fin (insert_rows ign sch chks rows t)
+  | Update ign sets wh => fin (update_rows ign sch chks sets wh t)
+  | Upsert ign rows sets =>
+      if first_row_gen_value sch rows then (t, RErr EGenValue) else fin (upsert_rows ign sch chks sets rows t)
+  | Replace rows =>
+      if first_row_gen_value sch rows then (t, RErr EGenValue) else fin (replace_rows sch chks rows t)
+  end.
+
+(* the warnings of a successful IGNORE statement whose values hold no strings *)
+Definition stmt_warnings (sch : list col) (chks0 : list check) (t : table) (s : stmt) : N :=
+  let chks := eff_checks sch chks0 in
+  match s with
+  | Insert true rows => sumN (map (insert_row_warn sch chks) rows)
+  | Update true sets wh => sumN (map (fun r => if matches wh r then update_row_warn sch chks sets r else 0%N) t)
+  | _ => 0%N
   end.
 
 Fixpoint run (sch : list col) (chks : list check) (t : table) (h : list stmt) : table :=
@@ -300,5 +487,6 @@ Definition row_checks_ok (chks : list check) (r : list (option Z)) : Prop :=
 Definition row_notnull_ok (sch : list col) (r : list (option Z)) : Prop :=
   forall i c, nth_error sch i = Some c -> notnull c = true -> nth i r None <> None.
 
+(* stored and virtual generated columns alike *)
 Definition row_generated_ok (sch : list col) (r : list (option Z)) : Prop :=
   forall i c e, nth_error sch i = Some c -> gen c = Some e -> nth i r None = eval_term (cells r) e.
